@@ -446,6 +446,17 @@ func genC11Case(t *rapid.T) *C11Case {
 			c.Pool = append(c.Pool, &Call{S: s})
 		default:
 			c.Pool = append(c.Pool, &Call{V: genScalarCall(t, mg)})
+			if rapid.IntRange(0, 2).Draw(t, "commonVarCalls") == 1 {
+				// several Var validators alive at once whose rule lists start with the same shared prefix slice
+				name := rapid.SampledFrom([]string{"A", "B"}).Draw(t, "commonName")
+				for j := rapid.IntRange(2, 3).Draw(t, "commonCalls"); j > 0; j-- {
+					kind := rapid.SampledFrom([]string{"string", "int"}).Draw(t, "cvKind")
+					v := &ScalarCase{T: desc.Scalar(kind), Val: genScalar(t, kind, "cv", true), Carrier: "var", Common: name}
+					m, _ := measureOf(kind, v.Val)
+					v.Rules = append(append([]string(nil), commonRules[name]...), genSizeRule(t, m, "cvsz")+mg.next(t))
+					c.Pool = append(c.Pool, &Call{V: v})
+				}
+			}
 		}
 	}
 	return c
